@@ -105,6 +105,17 @@ claim("C06",
       "R06.2/R06.3 are shape rules on the 25 statements of _make_step/_accel.",
       "exact constant folding of the tableaux (order conditions) + ast pattern rules", "§3 C06")
 
+claim("C12",
+      "Clause-level: the column span of each of the 15 quantities the writer formats (computed from the format "
+      "templates' static widths) equals the union of the slices the reader takes for the same quantity, the total "
+      "width + 1 equals the tested length and the checksum index + 1; writer scale x reader scale = 1 for the eight "
+      "scaled fields (term algebra), designator/epoch encodings inverse, every attribute the writer reads is carried by "
+      "Tle.orbit(); validation dominates parsing, with the three documented rejections and the checksum definition; "
+      "from_string's grouping resets its cache on every path; the epoch is written from and read as UTC.",
+      "Not decided: preservation of every printable value to its printed precision (numeric formatting), behaviour "
+      "for values that do not fit their field. Assumes each value fits its field.",
+      "format-layout analysis of the templates vs slice census + term algebra on scale factors + ast pattern rules", "§3 C12")
+
 NOT_YET = "check not built yet in this revision; rules designed in DESIGN.md §3 — claimed once its checker is committed"
 
 ALL = [f"C{i:02d}" for i in range(1, 21)]
